@@ -50,11 +50,13 @@ Plan  == /\ Ev.e \in {"PlanCreate", "PlanCreated", "PlanDestroy", "PlanDestroyed
          /\ Keep(<<memo, nhit, live, owner, lock, nuse, pcre, pproc>>)
 ThEval == TEval /\ Ev.tid \in live /\ Keep(<<live, owner, lock, nuse, pcre, pproc>>)
 \* a Lagrange polynomial records (in its precomp field) a processor: as pinned, that of the thread that creates it; as repaired (fix 0f4e6fe), the shared one ...
-PolyNew == /\ Ev.e = "PolyNew" /\ Ev.tid \in live /\ owner[Ev.proc] \in {Ev.tid, Shared}
+\* (a precomp field that points at something that never was an FFT processor in this trace is outside what the trace can judge: no claim is made about it)
+EverProc == {Tr[i].proc : i \in {j \in 1..Len(Tr) : Tr[j].e = "ProcCtor"}}
+PolyNew == /\ Ev.e = "PolyNew" /\ Ev.tid \in live /\ (Ev.proc \in EverProc => owner[Ev.proc] \in {Ev.tid, Shared})
            /\ pcre' = [pcre EXCEPT ![Ev.poly] = Ev.tid] /\ pproc' = [pproc EXCEPT ![Ev.poly] = Ev.proc]
            /\ Keep(<<memo, nhit, live, owner, lock, nuse>>)
 \* ... and every operation that writes it reads that processor: it must still be alive and still be its creator's (C16: no use after free over thread create / exit histories)
-PolyUse == /\ Ev.e = "PolyUse" /\ Ev.tid \in live /\ pproc[Ev.poly] = Ev.proc /\ owner[Ev.proc] \in {pcre[Ev.poly], Shared}
+PolyUse == /\ Ev.e = "PolyUse" /\ Ev.tid \in live /\ pproc[Ev.poly] = Ev.proc /\ (Ev.proc \in EverProc => owner[Ev.proc] \in {pcre[Ev.poly], Shared})
            /\ Keep(<<memo, nhit, live, owner, lock, nuse, pcre, pproc>>)
 \* the client thread of the storm phase: it encrypted, decrypted and encoded alongside the evaluators, and every one of its own round trips came out right
 Client == /\ Ev.e = "Client" /\ Ev.tid \in live /\ Ev.wrong = 0 /\ Ev.ops >= 1 /\ Keep(<<memo, nhit, live, owner, lock, nuse, pcre, pproc>>)
